@@ -57,7 +57,7 @@ func (f *Divide) Call(s *slip.Scope, args slip.List, depth int) (quot slip.Objec
 				switch td := quot.(type) {
 				case slip.Fixnum:
 					switch td {
-					case 1:
+					case 1, -1:
 						quot = td
 					case 0:
 						slip.DivisionByZeroPanic(s, depth, slip.Symbol("/"), args, "divide by zero")
@@ -96,7 +96,7 @@ func (f *Divide) Call(s *slip.Scope, args slip.List, depth int) (quot slip.Objec
 					if (*big.Rat)(td).Sign() == 0 {
 						slip.DivisionByZeroPanic(s, depth, slip.Symbol("/"), args, "divide by zero")
 					}
-					quot = (*slip.Ratio)(new(big.Rat).Inv((*big.Rat)(td)))
+					quot = reduceRational(new(big.Rat).Inv((*big.Rat)(td)))
 				case slip.Complex:
 					quot = slip.Complex(complex(1, 0) / complex128(td))
 				}
@@ -145,7 +145,7 @@ func (f *Divide) Call(s *slip.Scope, args slip.List, depth int) (quot slip.Objec
 			var zz big.Int
 			q, r := zz.QuoRem((*big.Int)(quot.(*slip.Bignum)), (*big.Int)(ta), &z)
 			if r.Sign() == 0 {
-				quot = (*slip.Bignum)(q)
+				quot = reduceInteger(q)
 			} else {
 				var zr big.Rat
 				quot = (*slip.Ratio)(zr.SetFrac((*big.Int)(quot.(*slip.Bignum)), (*big.Int)(ta)))
@@ -154,7 +154,7 @@ func (f *Divide) Call(s *slip.Scope, args slip.List, depth int) (quot slip.Objec
 			if (*big.Rat)(ta).Sign() == 0 {
 				slip.DivisionByZeroPanic(s, depth, slip.Symbol("/"), args, "divide by zero")
 			}
-			quot = (*slip.Ratio)(new(big.Rat).Quo((*big.Rat)(quot.(*slip.Ratio)), (*big.Rat)(ta)))
+			quot = reduceRational(new(big.Rat).Quo((*big.Rat)(quot.(*slip.Ratio)), (*big.Rat)(ta)))
 		case slip.Complex:
 			quot = slip.Complex(complex128(quot.(slip.Complex)) / complex128(ta))
 		}
